@@ -94,10 +94,18 @@ def tag(v):
     raise TypeError(v)
 
 
+def is_mapping(obj):
+    """dict or config proxy, decided on the TYPE (a setting may be named `keys` / `items` / `get` and shadow the proxied dict
+    method of that name on the instance)"""
+    t = type(obj)
+    return isinstance(obj, dict) or (all(hasattr(t, m) for m in ("__getitem__", "__iter__", "__len__"))
+                                     and not isinstance(obj, (str, bytes, list, tuple, set, frozenset)))
+
+
 def plain(obj):
-    """deep plain-dict copy of a Config / DataProxy / dict through the public mapping interface"""
-    if hasattr(obj, "keys") and callable(obj.keys) and hasattr(obj, "__getitem__"):
-        return {k: plain(obj[k]) for k in obj.keys()}
+    """deep plain-dict copy of a Config / DataProxy / dict through item access and iteration only"""
+    if is_mapping(obj):
+        return {k: plain(obj[k]) for k in iter(obj)}
     return obj
 
 
